@@ -352,7 +352,8 @@ def run(ctx):
 
     # physical records at and just below the maximum length (the 16-bit length field), first in the file: with TIF markers the
     # first marker's 'next' word is then at its largest
-    for total in (65535, 65534, 65532, 65528, 65527, 65523, 65520):
+    # ... and physical records whose total length is a power of two (8192: the usual I/O block; whoever copies in blocks meets it)
+    for total in (65535, 65534, 65532, 65528, 65527, 65523, 65520, 8192, 16384, 32768, 4096):
         for tif in ('le', 'be', 'none') if not ctx.quick or total % 2 else ('le',):
             trailer = rng.choice([(0, 0, 0), (1, 1, 0), (1, 1, 1)])
             n0 = total - 4 - 2 * sum(trailer)
@@ -367,11 +368,11 @@ def run(ctx):
         nrec = rng.choice([1, 2, 4, 12])
         rn, fn, ck = rng.choice([(0, 0, 0), (1, 0, 0), (0, 1, 0), (0, 0, 1), (1, 1, 1), (1, 1, 0)])
         taillen = 2 * (rn + fn + ck)
-        maxpr = rng.choice([4 + taillen + 1, 4 + taillen + 2, 4 + taillen + 3, 16, 64, 1024, 65535])
+        maxpr = rng.choice([4 + taillen + 1, 4 + taillen + 2, 4 + taillen + 3, 16, 64, 1024, 65535, 8192, 16384])
         maxpr = max(maxpr, 4 + taillen + 1)
         lens = [rng.choice([2, 3, maxpr - 4 - taillen, maxpr - 3 - taillen, 2 * (maxpr - 4 - taillen),
                             rng.randint(2, 300)]) for _ in range(nrec)]
-        lens = [max(2, min(L, 3000 if maxpr > 8 else 40)) for L in lens]
+        lens = [max(2, min(L, (2 * maxpr if maxpr in (8192, 16384) else 3000) if maxpr > 8 else 40)) for L in lens]
         tif = rng.choice(['none', 'le'])
         if wi == 0 or (not ctx.quick and wi == 1):
             # more physical records than the 16-bit record number of the trailer can count: it wraps to 0 after 65535
